@@ -14,9 +14,6 @@ import (
 	"fmt"
 	"net"
 	"net/http"
-	"os"
-	"strconv"
-	"strings"
 	"time"
 
 	"github.com/lesismal/nbio"
@@ -474,17 +471,10 @@ func keepaliveScenarios(tier string) []weighted {
 							continue
 						}
 					}
-					if v := os.Getenv("VERIF_C16_P"); v != "" {
-						p, _ = strconv.Atoi(v)
-					}
-					if v := os.Getenv("VERIF_C16_D"); v != "" {
-						d, _ = strconv.Atoi(v)
-					}
 					add(kcfg{mode: m, exec: e, ws: ws, gaps: gl, p: p, d: d})
 				}
 			}
 		}
 	}
-	_ = strings.Join
 	return out
 }
